@@ -39,7 +39,7 @@ def run(prop, tier, seed, only_replay=None):
         envinfo = {}
 
     # 1. proofs
-    proofs = core.check_props(prop) if os.path.exists(os.path.join(core.COQ, "Props", prop + ".v")) else None
+    proofs = core.check_props(prop, tier) if os.path.exists(os.path.join(core.COQ, "Props", prop + ".v")) else None
 
     coverage = {}
     stats = Counter()
@@ -159,6 +159,7 @@ def run(prop, tier, seed, only_replay=None):
         trusted_base=core.TRUSTED_BASE,
         theorems=proofs["theorems"] if proofs else [],
         print_assumptions=proofs["assumptions"] if proofs else {},
+        coqchk=proofs.get("coqchk") if proofs else None,
         evaluations=n_cases,
         distinct_nontrivial=len(distinct),
         rule=getattr(mod, "RULE", "generated jq programs run on the implementation (harness, /repo crates) and on the "
